@@ -504,3 +504,224 @@ Section NumGraph2.
     rewrite !H. rewrite (andb_comm (Pc n2c u c (wu e))). reflexivity.
   Qed.
 End NumGraph2.
+
+(* ---------------- small general facts ---------------- *)
+Lemma omapM_map : forall {X Y} (f : X -> outcome Y) (h : X -> Y) l,
+  (forall x, In x l -> f x = Ok (h x)) -> omapM f l = Ok (map h l).
+Proof.
+  intros X Y f h l. induction l as [|x t IH]; intro H; [reflexivity|]. cbn [omapM map].
+  rewrite (H x (or_introl eq_refl)). cbn [bind]. rewrite IH by (intros y Hy; apply H; right; exact Hy). reflexivity.
+Qed.
+
+Lemma lookup_map_key : forall {X} (k : X -> nat) (h : nat -> Q) (l : list X) u,
+  lookup Nat.eqb u (map (fun n => (k n, h (k n))) l) =
+  if existsb (fun n => Nat.eqb (k n) u) l then Some (h u) else None.
+Proof.
+  intros X k h l u. induction l as [|x t IH]; [reflexivity|]. cbn [map lookup existsb].
+  rewrite (Nat.eqb_sym u (k x)). destruct (Nat.eqb (k x) u) eqn:E; [|exact IH].
+  apply Nat.eqb_eq in E. rewrite E. reflexivity.
+Qed.
+
+Lemma nth_error_ext_eq : forall {X} (a b : list X), (forall j, nth_error a j = nth_error b j) -> a = b.
+Proof.
+  intros X a. induction a as [|x t IH]; intros [|y u] H.
+  - reflexivity.
+  - specialize (H 0%nat). discriminate.
+  - specialize (H 0%nat). discriminate.
+  - pose proof (H 0%nat) as H0. cbn in H0. inversion H0. subst y. f_equal. apply IH. intro j. apply (H (S j)).
+Qed.
+
+Lemma qsum_map_upd : forall {X} (f : X -> Q) l l' i x y,
+  nth_error l i = Some x ->
+  (forall j, nth_error l' j = if Nat.eqb j i then Some y else nth_error l j) ->
+  qsum (map f l') == qsum (map f l) - f x + f y.
+Proof.
+  intros X f l. induction l as [|h t IH]; intros l' i x y Hx Hn; [destruct i; discriminate|].
+  destruct i as [|i].
+  - cbn in Hx. inversion Hx. subst h.
+    assert (E : l' = y :: t).
+    { apply nth_error_ext_eq. intros [|j]; rewrite Hn; reflexivity. }
+    subst l'. cbn [map qsum]. ring.
+  - cbn in Hx. destruct l' as [|h' t'].
+    + specialize (Hn 0%nat). cbn in Hn. discriminate.
+    + pose proof (Hn 0%nat) as H0. cbn in H0. inversion H0. subst h'. cbn [map qsum].
+      rewrite (IH t' i x y Hx); [ring|]. intro j. apply (Hn (S j)).
+Qed.
+
+Lemma wsel_nonneg : forall (p : wedgeN -> bool) (es : list wedgeN),
+  (forall e, In e es -> 0 <= ww e) -> 0 <= wsel p es.
+Proof.
+  intros p es. induction es as [|e t IH]; intro H; [unfold wsel; cbn; lra|].
+  rewrite (@wsel_cons nat). specialize (IH (fun x Hx => H x (or_intror Hx))).
+  pose proof (H e (or_introl eq_refl)). destruct (p e); lra.
+Qed.
+
+(* gain_of, directed: inversion and existence *)
+Lemma gain_of_directed_inv : forall di m res c wt gq,
+  gain_of di m res true c wt = Ok (Some gq) ->
+  exists si so, nth_error (stot_in di) c = Some si /\ nth_error (stot_out di) c = Some so /\ ~ m == 0 /\
+                gq == wt - res * (out_degree di * si + in_degree di * so) / m.
+Proof.
+  intros di m res c wt gq H. unfold gain_of, vec_get, unwrap_at in H.
+  destruct (nth_error (stot_in di) c) as [si|] eqn:E1; cbn [bind] in H; [|discriminate].
+  destruct (nth_error (stot_out di) c) as [so|] eqn:E2; cbn [bind] in H; [|discriminate].
+  destruct (Qeq_bool m 0) eqn:Em; [discriminate|]. apply ok_some_inj in H.
+  exists si, so. split; [reflexivity|]. split; [reflexivity|]. split.
+  - intro Hm. apply Qeq_bool_iff in Hm. congruence.
+  - rewrite <- H. apply Qred_correct.
+Qed.
+
+Lemma gain_of_directed_some : forall di m res c wt si so,
+  nth_error (stot_in di) c = Some si -> nth_error (stot_out di) c = Some so -> ~ m == 0 ->
+  exists gq, gain_of di m res true c wt = Ok (Some gq) /\
+             gq == wt - res * (out_degree di * si + in_degree di * so) / m.
+Proof.
+  intros di m res c wt si so E1 E2 Hm. unfold gain_of, vec_get, unwrap_at. rewrite E1, E2. cbn [bind].
+  destruct (Qeq_bool m 0) eqn:Em; [apply Qeq_bool_iff in Em; contradiction|].
+  eexists. split; [reflexivity | apply Qred_correct].
+Qed.
+
+Lemma gain_of_total : forall di m res dir c wt,
+  (dir = false -> nth_error (stot di) c <> None) ->
+  (dir = true -> nth_error (stot_in di) c <> None /\ nth_error (stot_out di) c <> None) ->
+  exists r, gain_of di m res dir c wt = Ok r.
+Proof.
+  intros di m res dir c wt Hu Hd. unfold gain_of, vec_get. destruct dir.
+  - destruct (Hd eq_refl) as [H1 H2].
+    destruct (nth_error (stot_in di) c); [|congruence]. destruct (nth_error (stot_out di) c); [|congruence].
+    cbn [unwrap_at bind]. eauto.
+  - specialize (Hu eq_refl). destruct (nth_error (stot di) c); [|congruence]. cbn [unwrap_at bind]. eauto.
+Qed.
+
+Lemma scan_candidates_total : forall di m res dir cands bc bm seen,
+  (forall c w, In (c, w) cands -> exists r, gain_of di m res dir c w = Ok r) ->
+  exists r, scan_candidates di m res dir cands bc bm seen = Ok r.
+Proof.
+  intros di m res dir cands. induction cands as [|[c w] t IH]; intros bc bm seen H; cbn [scan_candidates]; [eauto|].
+  destruct (H c w (or_introl eq_refl)) as [r Hr]. rewrite Hr. cbn [bind].
+  assert (Ht : forall c0 w0, In (c0, w0) t -> exists r0, gain_of di m res dir c0 w0 = Ok r0)
+    by (intros c0 w0 H0; apply H; right; exact H0).
+  destruct r as [gq|]; [destruct (Qlt_le_dec bm gq)|]; apply IH; exact Ht.
+Qed.
+
+Lemma update_best_com_total : forall own w2c di m res dir,
+  (forall c w, In (c, w) w2c -> exists r, gain_of di m res dir c w = Ok r) ->
+  exists bc tie, update_best_com own w2c di m res dir = Ok (bc, tie) /\ (bc = own \/ In bc (keys w2c)).
+Proof.
+  intros own w2c di m res dir H. unfold update_best_com.
+  destruct (scan_candidates_total di m res dir (sort_candidates own w2c) own 0 []) as [[[bc bm] seen] Hr].
+  { intros c w Hin. apply H. apply sort_candidates_In in Hin. exact Hin. }
+  rewrite Hr. cbn [bind]. exists bc, (risky_tie bm seen). split; [reflexivity|].
+  destruct (scan_candidates_inv di m res dir _ _ _ _ _ _ _ Hr) as [_ [_ [[Hb _]|[w [Hin _]]]]].
+  - left. exact Hb.
+  - right. apply sort_candidates_In in Hin. unfold keys. apply in_map_iff. exists (bc, w). split; [reflexivity | exact Hin].
+Qed.
+
+(* ---------------- the degree information ---------------- *)
+Section Degrees.
+  Variable g : lgraph.
+  Hypothesis W : WFn g.
+  Hypothesis Hreal : forall e, In e (get_all_edges g) -> exists z, ew e = Some z.
+
+  Notation es := (wedges g).
+  Notation nms := (names g).
+
+  Lemma zsum_q : forall l : list ledge, inject_Z (zsum l) == qsum (map (fun e => inject_Z (zw_ e)) l).
+  Proof.
+    induction l as [|e t IH]; [reflexivity|]. cbn [zsum fold_right map qsum].
+    rewrite inject_Z_plus. fold (zsum t). rewrite IH. reflexivity.
+  Qed.
+
+  Lemma Kout_single : forall u, Kout_of Nat.eqb es [u] == inject_Z (w_out Nat.eqb g u).
+  Proof.
+    intro u. unfold Kout_of, wedges. rewrite wsel_map_wq. unfold w_out, out_edges_of. rewrite zsum_q.
+    unfold get_all_edges.
+    rewrite (filter_ext (fun e : ledge => membN (wu (wq e)) [u]) (fun e => Nat.eqb (eu e) u)); [reflexivity|].
+    intro e. cbn. apply orb_false_r.
+  Qed.
+
+  Lemma Kin_single : forall u, Kin_of Nat.eqb es [u] == inject_Z (w_in Nat.eqb g u).
+  Proof.
+    intro u. unfold Kin_of, wedges. rewrite wsel_map_wq. unfold w_in, in_edges_of. rewrite zsum_q.
+    unfold get_all_edges.
+    rewrite (filter_ext (fun e : ledge => membN (wv (wq e)) [u]) (fun e => Nat.eqb (ev e) u)); [reflexivity|].
+    intro e. cbn. apply orb_false_r.
+  Qed.
+
+  Lemma wmap_q_real : forall (l : list lnode) (h : nat -> Z),
+    wmap_q (map (fun n => @pair nat weight (nname n) (Some (h (nname n)))) l) =
+    Ok (map (fun n => (nname n, inject_Z (h (nname n)))) l).
+  Proof.
+    intros l h. unfold wmap_q. induction l as [|x t IH]; [reflexivity|]. cbn [map omapM].
+    cbn [snd fst q_of_w bind]. rewrite IH. reflexivity.
+  Qed.
+
+  Lemma for_all_nodes_map : forall {X} (f : lgraph -> nat -> outcome (option X)) (h : nat -> X),
+    (forall x, In x nms -> f g x = Ok (Some (h x))) ->
+    for_all_nodes g f = Ok (map (fun n : lnode => (nname n, h (nname n))) (nodes_vec g)).
+  Proof.
+    intros X f h H. unfold for_all_nodes. apply omapM_map. intros n Hn.
+    rewrite (H (nname n)) by (unfold names; apply in_map; exact Hn). reflexivity.
+  Qed.
+
+  Lemma lookup_deg_map : forall (h : nat -> Q) u, In u nms ->
+    lookup Nat.eqb u (map (fun n : lnode => (nname n, h (nname n))) (nodes_vec g)) = Some (h u).
+  Proof.
+    intros h u Hu. rewrite (lookup_map_key (fun n : lnode => nname n) h).
+    rewrite (name_exists g u Hu). reflexivity.
+  Qed.
+
+  (* undirected *)
+  Lemma degrees_undirected :
+    exists dg, (do d0 <- get_weighted_degree_for_all_nodes Nat.eqb Nat.ltb g; wmap_q d0) = Ok dg /\
+      forall u, In u nms -> exists q, lookup Nat.eqb u dg = Some q /\ q == K_of Nat.eqb es [u].
+  Proof.
+    unfold get_weighted_degree_for_all_nodes.
+    rewrite (for_all_nodes_map (get_node_weighted_degree Nat.eqb Nat.ltb)
+               (fun x => Some (w_out Nat.eqb g x + w_in Nat.eqb g x)%Z)).
+    - cbn [bind]. pose proof (wmap_q_real (nodes_vec g) (fun x => (w_out Nat.eqb g x + w_in Nat.eqb g x)%Z)) as E.
+      cbn beta in E. rewrite E. clear E.
+      eexists. split; [reflexivity|]. intros u Hu.
+      pose proof (lookup_deg_map (fun x => inject_Z (w_out Nat.eqb g x + w_in Nat.eqb g x)) u Hu) as E.
+      cbn beta in E. rewrite E. clear E.
+      eexists. split; [reflexivity|]. unfold K_of. rewrite Kout_single, Kin_single, inject_Z_plus. reflexivity.
+    - intros x Hx. apply (get_node_weighted_degree_spec Nat.eqb Nat.ltb Nat.eqb_eq nat_ltb_tot g x W Hx). exact Hreal.
+  Qed.
+
+  Lemma all_real_sub_perm : forall l l' : list ledge, Permutation l l' ->
+    (forall e, In e l' -> In e (get_all_edges g)) -> wsum (map ew l) = Some (zsum l').
+  Proof.
+    intros l l' HP Hsub. rewrite (wsum_real l).
+    - f_equal. apply zsum_perm. exact HP.
+    - intros e He. apply Hreal. apply Hsub. eapply Permutation_in; [exact HP | exact He].
+  Qed.
+
+  Lemma degrees_directed : directed (sp g) = true ->
+    exists ind outd,
+      (do i0 <- unwrap_res "louvain.rs:get_degree_information in unwrap"
+                  (get_weighted_in_degree_for_all_nodes Nat.eqb g); wmap_q i0) = Ok ind /\
+      (do o0 <- unwrap_res "louvain.rs:get_degree_information out unwrap"
+                  (get_weighted_out_degree_for_all_nodes Nat.eqb g); wmap_q o0) = Ok outd /\
+      (forall u, In u nms -> exists q, lookup Nat.eqb u ind = Some q /\ q == Kin_of Nat.eqb es [u]) /\
+      (forall u, In u nms -> exists q, lookup Nat.eqb u outd = Some q /\ q == Kout_of Nat.eqb es [u]).
+  Proof.
+    intro Hd. unfold get_weighted_in_degree_for_all_nodes, get_weighted_out_degree_for_all_nodes. rewrite Hd. cbn [negb].
+    rewrite (for_all_nodes_map (get_node_weighted_in_degree Nat.eqb) (fun x => Some (w_in Nat.eqb g x))).
+    2:{ intros x Hx. unfold get_node_weighted_in_degree.
+        destruct (get_in_edges_for_node_spec Nat.eqb Nat.ltb Nat.eqb_eq g x W Hd Hx) as [l [Hl HP]]. rewrite Hl.
+        cbn [opt_wsum]. rewrite (all_real_sub_perm l _ HP); [reflexivity|].
+        intros e He. unfold in_edges_of in He. apply filter_In in He. apply He. }
+    rewrite (for_all_nodes_map (get_node_weighted_out_degree Nat.eqb) (fun x => Some (w_out Nat.eqb g x))).
+    2:{ intros x Hx. unfold get_node_weighted_out_degree.
+        destruct (get_out_edges_for_node_spec Nat.eqb Nat.ltb Nat.eqb_eq g x W Hd Hx) as [l [Hl HP]]. rewrite Hl.
+        cbn [opt_wsum]. rewrite (all_real_sub_perm l _ HP); [reflexivity|].
+        intros e He. unfold out_edges_of in He. apply filter_In in He. apply He. }
+    cbn [unwrap_res bind].
+    rewrite (wmap_q_real (nodes_vec g) (w_in Nat.eqb g)), (wmap_q_real (nodes_vec g) (w_out Nat.eqb g)).
+    eexists. eexists. split; [reflexivity|]. split; [reflexivity|]. split; intros u Hu.
+    - rewrite (lookup_deg_map (fun x => inject_Z (w_in Nat.eqb g x)) u Hu). eexists. split; [reflexivity|].
+      rewrite Kin_single. reflexivity.
+    - rewrite (lookup_deg_map (fun x => inject_Z (w_out Nat.eqb g x)) u Hu). eexists. split; [reflexivity|].
+      rewrite Kout_single. reflexivity.
+  Qed.
+End Degrees.
